@@ -227,6 +227,17 @@ TARGETS = [
                            (r"state\.failed = true", "setFailed"),
                            (r"cvar\.notify_all\(\)", "notifyAll"),
                            (r"return Err\(e\)", "stop")])),
+    # ---- the order in which BasicCreator::finalize creates temporary files and publishes (renames) them
+    dict(name="basicCreatorPublications", group="Fs", file="src/creator/basic_creator.rs", fn="finalize", after=r"impl BasicCreator", cfg={},
+         occurrences=dict(type="PubStmt", forbid=r"remove_file|std::fs::rename|\.persist\(|remove_dir|std::fs::copy|std::fs::write",
+                          rules=[(r"container_file\.close_file\(\)\?;\s*let new_container", "publishContentFile"),
+                                 (r"let atomic_container_pack = AtomicOutFile::new\(&self\.outpath\)\?", "tempEntryContainer"),
+                                 (r"extra_pack_file\.close_file\(\)\?", "publishExtra"),
+                                 (r"AtomicOutFile::new\(new_with_extension\(&self\.outpath, \"\.jbkd\"\)\)\?", "tempDirectory"),
+                                 (r"let directory_pack_path = atomic_tmp_file\.close_file\(\)\?", "publishDirectory"),
+                                 (r"let mut atomic_tmp_file = AtomicOutFile::new\(&self\.outpath\)\?", "tempEntryManifest"),
+                                 (r"manifest_creator\.finalize\(&mut atomic_tmp_file\)\?;\s*atomic_tmp_file\.close_file\(\)\?", "publishEntryManifest"),
+                                 (r"let container_file = container\.finalize\(\)\?;\s*container_file\.close_file\(\)\?;\s*\}\s*Ok\(\(\)\)", "publishEntryContainer")])),
 ]
 
 
@@ -351,6 +362,28 @@ def shape_actions(body, rules, touch, select=None, else_block=False, first=None)
     return acts
 
 
+def occurrence_sequence(body, rules, forbid=None):
+    """the protocol events of a body in textual order: every match of one of the `rules` regexes
+    [(regex, event name)] anywhere in the text, sorted by position; `forbid` = regex of text that must not
+    occur at all (operations on the file system outside the modelled ones)"""
+    import re
+    text = re.sub(r"//[^\n]*", "", body)
+    if forbid:
+        m = re.search(forbid, text)
+        if m:
+            raise rs2lean.Untranslatable("operation outside the modelled ones: " + m.group(0)[:60])
+    found = []
+    for rx, ev in rules:
+        for m in re.finditer(rx, text):
+            found.append((m.start(), ev))
+    found.sort()
+    # two rules matching at the same place would be ambiguous
+    for a, b in zip(found, found[1:]):
+        if a[0] == b[0]:
+            raise rs2lean.Untranslatable("ambiguous protocol event at one position")
+    return [ev for _, ev in found]
+
+
 def lower_first(s):
     return s[0].lower() + s[1:]
 
@@ -387,8 +420,8 @@ def apply_enums(t):
     return "\n".join(decls)
 
 
-GROUP_IMPORTS = {"Sync": ["JubakoModel.Model.SyncVec"], "Pipe": ["JubakoModel.Model.Pipeline"], "Proto": ["JubakoModel.Model.FileCursor"], "Search": ["JubakoModel.Generated.FuncsBytes"], "Content": ["JubakoModel.Generated.FuncsBytes"], "Dir": ["JubakoModel.Generated.FuncsBytes", "JubakoModel.Model.Bytes"]}
-GROUP_ORDER = ["Bytes", "Content", "Dir", "Order", "Search", "View", "Check", "Proto", "Pipe", "Sync"]
+GROUP_IMPORTS = {"Fs": ["JubakoModel.Model.BasicCreatorFs"], "Sync": ["JubakoModel.Model.SyncVec"], "Pipe": ["JubakoModel.Model.Pipeline"], "Proto": ["JubakoModel.Model.FileCursor"], "Search": ["JubakoModel.Generated.FuncsBytes"], "Content": ["JubakoModel.Generated.FuncsBytes"], "Dir": ["JubakoModel.Generated.FuncsBytes", "JubakoModel.Model.Bytes"]}
+GROUP_ORDER = ["Bytes", "Content", "Dir", "Order", "Search", "View", "Check", "Proto", "Pipe", "Sync", "Fs"]
 
 
 def main():
@@ -424,6 +457,10 @@ def main():
                 if not m:
                     raise rs2lean.Untranslatable("expression not found: " + t["expr_rx"])
                 text = rs2lean.translate_expr(name, m.group(1), t["cfg"])
+            elif t.get("occurrences"):
+                oc = t["occurrences"]
+                evs = occurrence_sequence(body, oc["rules"], oc.get("forbid"))
+                text = f"def {name} : List {oc['type']} := [" + ", ".join("." + a for a in evs) + "]\n"
             elif t.get("shape"):
                 sh = t["shape"]
                 acts = shape_actions(body, sh["rules"], sh["touch"], sh.get("select"), sh.get("else_block", False), sh.get("first"))
